@@ -295,6 +295,42 @@ func Watchdog(rec *Recorder, c any, d time.Duration, progress func() int64, fn f
 	return f
 }
 
+// stuckAfter: a single case that has not returned after this long (twice: the decision is taken at the
+// second expiry) is reported as a failure of the property under check ("the operation returns" is part of
+// every oracle).  Cases take milliseconds; checks with a finer notion of progress use Watchdog themselves.
+const stuckAfter = 150 * time.Second
+
+func guarded[C any](rec *Recorder, c C, check func(C) (*Failure, Meta)) (*Failure, Meta) {
+	type res struct {
+		f *Failure
+		m Meta
+	}
+	done := make(chan res, 1)
+	go func() {
+		f, m := check(c)
+		done <- res{f, m}
+	}()
+	t := time.NewTimer(stuckAfter)
+	defer t.Stop()
+	select {
+	case r := <-done:
+		return r.f, r.m
+	case <-t.C:
+	}
+	select {
+	case r := <-done:
+		return r.f, r.m
+	case <-time.After(stuckAfter):
+	}
+	buf := make([]byte, 1<<18)
+	n := runtime.Stack(buf, true)
+	f := &Failure{Kind: "no-progress", Sig: "no-progress", Msg: fmt.Sprintf("the case did not return within %v", 2*stuckAfter), Detail: string(buf[:n])}
+	rec.WriteFail(c, f)
+	fmt.Printf("VERIF-FAIL no-progress: case stuck, stacks written to the fail file\n")
+	os.Exit(1)
+	return f, Meta{}
+}
+
 // Prop runs a rapid property: gen draws a case, check evaluates it.  Cases whose
 // failure matches an open known finding are counted and skipped.
 func Prop[C any](t *testing.T, rec *Recorder, gen func(*rapid.T) C, check func(C) (*Failure, Meta)) {
@@ -302,7 +338,7 @@ func Prop[C any](t *testing.T, rec *Recorder, gen func(*rapid.T) C, check func(C
 	defer rec.Flush()
 	rapid.Check(t, func(rt *rapid.T) {
 		c := gen(rt)
-		f, m := check(c)
+		f, m := guarded(rec, c, check)
 		rec.Case(c, m)
 		if f != nil {
 			if Known(rec.Prop, f.Sig) {
@@ -345,7 +381,7 @@ func Replay[C any](t *testing.T, prop string, check func(C) (*Failure, Meta)) {
 	hits := 0
 	var last *Failure
 	for i := 0; i < reps; i++ {
-		f, _ := check(c)
+		f, _ := guarded(rec, c, check)
 		if f != nil && !Known(prop, f.Sig) {
 			hits++
 			last = f
